@@ -97,7 +97,7 @@ m = {
            'baseline_off_cmd': 'cd /repo && /venv/bin/python -m pytest -ra -q -p no:cacheprovider --timeout=900 --continue-on-collection-errors',
            'source_commits': [], 'add_only': True},
  'engines': [{'name': 'hv.symx', 'path': 'hv/', 'serves_properties': sorted(CHECKS),
-              'kind_free_text': 'proxy-object symbolic executor for the real Python bytecode (terms -> z3), path enumeration by re-execution, AST import hook for is/in/builtins/f-strings; replays on uninstrumented code under /venv/bin/python'}],
+              'kind_free_text': 'proxy-object symbolic executor for the real Python bytecode (terms -> z3), path enumeration by re-execution, AST import hook for is/in/builtins/f-strings; whole-return SMT model composed from the path summaries, decided by z3 with the cvc5 binary as second engine; replays on uninstrumented code under /venv/bin/python'}],
  'checks': [],
  'notes': 'Solver-based checking of the real code; see DESIGN.md. Exit codes: 0 ok, 1 violation (VIOLATION line), 2 harness error. known_findings.json lists genuine defects (known / fixed).',
  'not_applicable': [],
